@@ -88,6 +88,8 @@ def run(b, ps, tier, seed):
     # the class for which the non-polarized runs are the synchronous runs (no forward/drop/split, single providers)
     npres = S.run_tool(b.model, "npaccept", cases, timeout=900)
     np_in = sorted(i for i, _ in d.programs if npres.get(i, "") == "NP-IN")
+    cfres = S.run_tool(b.model, "npcfree", cases, timeout=900)
+    cf_in = sorted(i for i, _ in d.programs if cfres.get(i, "") == "CF-IN")
     lin_out_core = sorted(i for i, t in d.programs if linres.get(i, "") == "LIN-OUT" and not R.uses_contraction(t) and "drop" not in R.strip_comments(t))
     if hyp_fail and not violations:
         i, m, sd, nbad, t = hyp_fail[0]
@@ -107,6 +109,8 @@ def run(b, ps, tier, seed):
                          "typed_core_class": {"what": "tested programs that satisfy init_linear_b (proofs/InitLinear.v, sound for the static premise of determinism_typed_core: no drop/split/multi-name, affine bodies, initial configuration a forest): for these topo_reachable is a theorem and C03 rests only on teq_ok and tc_annotations_typed",
                                               "programs_in_class": len(lin_in), "of": len(d.programs), "ids": lin_in[:12],
                                               "drop_split_free_but_rejected_by_check": lin_out_core[:12]},
+                         "np_cfree_class": {"what": "tested programs that satisfy the premises of determinism_np_cfree (proofs/DeterminismNPCfree.v): parsed, accepted, closed, contraction-free source (no split, one provider name per process; forwards and drop allowed): for these all runs of the non-polarized mode agree on completion and on the printed multiset (theorem); the agreement of that multiset with the polarized modes is a theorem only for the sub-class np_plain_class",
+                                            "programs_in_class": len(cf_in), "of": len(d.programs), "ids": cf_in[:12]},
                          "np_plain_class": {"what": "tested programs that satisfy the premises of determinism_np_plain / np_polarized_agree_plain (proofs/DeterminismNP.v): closed, all_src_b, no forward / drop / split in the source, one provider name per process: for these the runs of the non-polarized mode ARE the synchronous runs (np_run_sync), so the last clause of C03 holds of them as a theorem; for the other programs Topo along the non-polarized runs is a theorem (topo_runs_np_all) but the agreement of the multisets is covered by the correspondence runs only",
                                             "programs_in_class": len(np_in), "of": len(d.programs), "ids": np_in[:12]},
                          "accepted_all_class": {"what": "tested programs that satisfy the premises of determinism_all / topo_runs_all (proofs/DeterminismAll.v): parsed, accepted, closed (no assumed names), and the SOURCE has no empty case and no droppable forward: for these programs - drop, split, multi-name providers included - Topo along the runs is a theorem (invariant InvX, preserved by every step), so C03 (and the premise topo_runs of C01/C02) holds with no premise about runs",
